@@ -10,7 +10,7 @@ CONSTANTS
   Tols <- Tols4
   Gens <- Gens5
   Targets <- Targets3
-  MTols <- Tol1
+  MTols <- Tol0
   MGens = {1, 2}
   MTargets <- MTargets2
   PrsCat <- PrsQuick
